@@ -312,8 +312,8 @@ func (e *Enc) execAppend(fr *Frame, c *ssa.CallCommon, args []Val, cur *pathStat
 	a := e.allocComp()
 	fr0 := e.fresh("apparr")
 	e.declare(fr0, "Ref")
-	e.assume(fmt.Sprintf("(and (not (= %s nil)) (not (select %s %s)))", fr0, e.get(cur.st, a), fr0))
-	e.set(cur.st, a, store(e.get(cur.st, a), fr0, "true"))
+	e.assume(fmt.Sprintf("(and (not (= %s nil)) (= (atime %s) %s))", fr0, fr0, e.get(cur.st, a)))
+	e.set(cur.st, a, "(+ "+e.get(cur.st, a)+" 1)")
 	ncap := e.fresh("appcap")
 	e.declare(ncap, "Int")
 	e.assume(fmt.Sprintf("(>= %s (+ (s_len %s) %s))", ncap, s, n))
@@ -388,6 +388,7 @@ func (e *Enc) execStatic0(fr *Frame, callee *ssa.Function, args []Val, binds []V
 		}
 		e.note("external call " + full + ": arbitrary result, no effect on module state")
 		e.escapeArgs(fr, args, cur)
+		e.externalClosureArgs(fr, full, e.closureArgsOf(fr, instr, args), cur)
 		r := e.freshResult(resType, cur, "ext_"+sanitize(callee.Name()))
 		r = markExt(r)
 		return r
@@ -424,6 +425,137 @@ func (e *Enc) execStatic0(fr *Frame, callee *ssa.Function, args []Val, binds []V
 	e.allocMonotone(before, cur.st)
 	e.clockMonotone(before, cur.st)
 	return e.freshResult(resType, cur, "res_"+sanitize(callee.Name()))
+}
+
+// closureArgsOf: the function values handed to a call, plus (transitively) the closures held in
+// function-typed variables they capture (e.g. sort.Slice's less closure calling a local helper).
+func (e *Enc) closureArgsOf(fr *Frame, instr ssa.Instruction, args []Val) []Val {
+	var out []Val
+	seen := map[*ssa.Function]bool{}
+	var addMC func(mc *ssa.MakeClosure, depth int)
+	addMC = func(mc *ssa.MakeClosure, depth int) {
+		if depth > 4 {
+			return
+		}
+		for _, b := range mc.Bindings {
+			a, ok := b.(*ssa.Alloc)
+			if !ok {
+				continue
+			}
+			if _, isFn := a.Type().(*types.Pointer).Elem().Underlying().(*types.Signature); !isFn {
+				continue
+			}
+			sv, ok := fr.localProv[a]
+			if !ok {
+				continue
+			}
+			mc2, ok := sv.(*ssa.MakeClosure)
+			if !ok {
+				continue
+			}
+			if v, ok := fr.regs[mc2]; ok && v.Fn != nil && !seen[v.Fn] {
+				seen[v.Fn] = true
+				out = append(out, v)
+				addMC(mc2, depth+1)
+			}
+		}
+	}
+	var cc *ssa.CallCommon
+	switch x := instr.(type) {
+	case *ssa.Call:
+		cc = &x.Call
+	case *ssa.Defer:
+		cc = &x.Call
+	case *ssa.Go:
+		cc = &x.Call
+	}
+	for i, a := range args {
+		if a.Fn == nil {
+			continue
+		}
+		if !seen[a.Fn] {
+			seen[a.Fn] = true
+			out = append(out, a)
+		}
+		if cc != nil && i < len(cc.Args) {
+			v := cc.Args[i]
+			if ct, ok := v.(*ssa.ChangeType); ok {
+				v = ct.X
+			}
+			if mc, ok := v.(*ssa.MakeClosure); ok {
+				addMC(mc, 0)
+			}
+		}
+	}
+	return out
+}
+
+// externalClosureArgs: an external function that receives function values may call them any
+// number of times: havoc what they can write, then assume their contract's preserves clauses
+// (reflexive-transitive relations proved of every single call) between the state before and after.
+func (e *Enc) externalClosureArgs(fr *Frame, full string, args []Val, cur *pathState) {
+	switch full {
+	case "context.AfterFunc", "time.AfterFunc":
+		// registers a callback that runs later on another goroutine: its effects are concurrent
+		// interference (covered by the monitor rule for protected state), not effects of this call
+		e.note(full + ": the registered callback runs asynchronously; it is verified as a function of its own, not executed at registration")
+		return
+	}
+	var fns []Val
+	ms := newModSet()
+	for _, a := range args {
+		if a.Fn == nil {
+			continue
+		}
+		fns = append(fns, a)
+		if o := e.mods.of(a.Fn); o != nil {
+			ms.union(o)
+			if o.Top {
+				ms.Top = true
+			}
+		} else {
+			ms.Top = true
+		}
+		e.note("external call " + full + " may invoke the function value " + shortFuncName(a.Fn) + " any number of times: its effects are havocked")
+	}
+	if len(fns) == 0 {
+		return
+	}
+	pre := cur.st.clone()
+	e.curCallees = nil
+	for _, a := range fns {
+		e.curCallees = append(e.curCallees, a.Fn)
+	}
+	e.havocMods(fr, cur.st, ms, false)
+	e.curCallees = nil
+	e.allocMonotone(pre, cur.st)
+	e.clockMonotone(pre, cur.st)
+	for _, a := range fns {
+		fc := e.cs.Funcs[shortFuncName(a.Fn)]
+		if fc == nil || len(fc.Preserves) == 0 {
+			continue
+		}
+		env := map[string]SV{}
+		for i, fv := range a.Fn.FreeVars {
+			if i >= len(a.Binds) {
+				break
+			}
+			t := fv.Type().Underlying().(*types.Pointer).Elem()
+			if isObjStruct(t) {
+				env[fv.Name()] = SV{T: a.Binds[i].T, Sort: "Ref", Typ: fv.Type()}
+			} else {
+				env[fv.Name()] = SV{Typ: t, Loc: e.addrLoc(a.Binds[i], t)}
+			}
+		}
+		for _, c := range fc.Preserves {
+			t, err := e.evalSpec(c.Expr, &SpecCtx{e: e, pkg: fc.Pkg, pos: fcPos(a.Fn), params: env, cur: cur.st, old: pre, fc: fc})
+			if err != nil {
+				e.errorf("%s: preserves of %s: %v", fr.name, fc.Name, err)
+				continue
+			}
+			e.assumeIf(cur.reach, t.T)
+		}
+	}
 }
 
 func markExt(v Val) Val {
@@ -552,6 +684,28 @@ func (e *Enc) callSiteAsserts(fr *Frame, callee string, args []Val, cur *pathSta
 		e.addObl("callsite", e.framePrefix(fr)+lbl, cur.reach, t, pos, c.Text)
 		e.assumeIf(cur.reach, t)
 	}
+}
+
+// forgotten: the caller's contract says it does not use postcondition label of this call.
+func (e *Enc) forgotten(fr *Frame, callee string, label string) bool {
+	if fr.contract == nil {
+		return false
+	}
+	k := fr.callIdx[callee]
+	for _, f := range fr.contract.CallForget {
+		if !calleeMatches(f.Callee, callee) || (f.K != 0 && f.K != k) {
+			continue
+		}
+		if len(f.Labels) == 0 {
+			return true
+		}
+		for _, l := range f.Labels {
+			if l == label {
+				return true
+			}
+		}
+	}
+	return false
 }
 
 func calleeMatches(pat, name string) bool {
@@ -750,6 +904,9 @@ func (e *Enc) contractCallSig(fr *Frame, fc *FuncContract, callee *ssa.Function,
 		e.assumeIf(cur.reach, t.T)
 	}
 	for _, c := range fc.Ensures {
+		if e.forgotten(fr, fc.Name, c.Label) {
+			continue
+		}
 		for _, part := range splitConjuncts(c.Expr) {
 			if mentionsCallGhosts(part) || mentionsLet(part) {
 				// postconditions about the callee's own direct calls say nothing in the caller
